@@ -11,19 +11,19 @@ from . import c01, c02, c03
 ID = "C04"
 LEVEL = "proof"
 PROP_FILE = "Properties/C04.v"
-PROOF_FILES = ["Proofs/ThlFinal.v", "Proofs/ThlProofs.v", "Proofs/ExhProofs.v", "Proofs/LcaProofs.v", "Proofs/DpProofs.v", "Proofs/EntryProofs.v",
+PROOF_FILES = ["Proofs/SpfsFinal.v", "Proofs/SpfsProofs.v", "Proofs/UspfsFinal.v", "Proofs/UspfsProofs.v", "Proofs/ThlFinal.v", "Proofs/ThlProofs.v", "Proofs/ExhProofs.v", "Proofs/LcaProofs.v", "Proofs/DpProofs.v", "Proofs/EntryProofs.v",
                "Proofs/ReconProofs.v", "Proofs/PathFacts.v", "Model/Thl.v", "Model/Spfs.v", "Model/Uspfs.v", "Model/Recon.v", "Model/Entry.v"]
 TRUSTED = c01.TRUSTED + c02.TRUSTED + c03.TRUSTED
 ASSUMES = ["binary trees for the modelled part; multifurcating inputs are checked on the implementation's outputs only"]
 RULE = ("same input space as C01-C03 but with arbitrary (also incoherent) cost vectors and sloss = 0, all seven algorithms, both policies; "
         "non-trivial = a solution with at least one duplication/transfer or a labelled solution with >= 3 leaves")
-OPEN_GOALS = ["valid_ordered for base/ext SPFS (decoded labellings: child subsequence of parent, root complete, leaves exact)",
-              "valid_unordered for base/ext USPFS (families confined to the subtree of their gain node)"]
-TECHNIQUE = "Coq proof of validity for lca/thl/exh (no cost hypothesis); executable models of the labelled solvers tied to the code; validity predicates of the property evaluated on every returned solution"
-LEVEL_TEXT = ("Machine-checked, for any unit costs: every reconciliation returned by reconcile_thl (any policy), reconcile_exhaustive/generate_all and reconcile_lca is a valid complete reconciliation "
-              "(total mapping of the right shape, leaves on their species, no invalid event). For the four labelled solvers validity is not yet a theorem: their Coq models are compared with the code on "
-              "arbitrary cost vectors (sloss = 0 and incoherent ones included) and the property's validity predicates are evaluated on every solution returned, including multifurcating inputs.")
-LEVEL_NOTE = "Partial for the labelled solvers (model + correspondence + predicate evaluation, no theorem yet). Trusted: Coq kernel, hand-written models, correspondence."
+OPEN_GOALS: list = []
+TECHNIQUE = "Coq proof of validity of every decoded solution for all seven algorithms, with no hypothesis on the unit costs (decode soundness over the faithful table models)"
+LEVEL_TEXT = ("Machine-checked for any unit costs (sloss = 0 and incoherent vectors included), both policies: every solution returned by lca, thl, exh, base/ext SPFS and base/ext USPFS maps every object node, "
+              "keeps the leaves on their species, has no invalid event; ordered: leaf syntenies exact, every child a subsequence of its parent, root = a compatible root order (every family once), the evaluator does not fail; "
+              "unordered: a family occurs only inside the subtree of its gain node and on every node of the branch down to where it occurs. "
+              "Multifurcating inputs are covered by the C08 theorems on the refinement enumerator plus the validity predicates evaluated on the implementation's outputs.")
+LEVEL_NOTE = "Trusted: Coq kernel, hand-written models, correspondence (differential testing). No axioms. Theorems are about the code after fixes D4-D6."
 
 
 def _valid_plain(case, sols):
